@@ -31,7 +31,7 @@ NOTFOUND = {"PidRefsDoesNotExist", "OrphanPidRefsFileFound", "PidNotFoundInCidRe
 
 
 def examples(tier):
-    return 1200 if tier == "quick" else 12000
+    return 1200 if tier == "quick" else 40000
 
 
 def strategy(tier):
